@@ -11,6 +11,10 @@ Written from the physics texts (Thomson, Klein–Nishina, Compton shift), not fr
 * Klein–Nishina, unpolarised      `r²/2 · P² · (P + 1/P − sin²θ)`
 * Klein–Nishina, polarised        `r²/2 · P² · (P + 1/P − 2 sin²θ cos²φ)`
 * Klein–Nishina, total            `2π r² · [ (1+a)/a³ · (2a(1+a)/(1+2a) − ln(1+2a)) + ln(1+2a)/(2a) − (1+3a)/(1+2a)² ]`, `a = E/mc²`
+  — for `a < 0.02` the bracket is replaced by its Taylor polynomial of degree 11 at `a = 0`
+  (`4/3 − 8a/3 + 104a²/15 − …`): in doubles the closed form loses `~eps/a³` to cancellation, the polynomial does not.
+  Over ℝ the two differ by at most `1e-16` of the bracket (`KNS.ser_close`), and the property theorems
+  (`C12.cs_kn_is_integral` …) are stated against the solid-angle integral of `DCS_KN`, not against this choice.
 * scattered photon energy         `E · P`
 * momentum transfer               `E / (hc) · sin(θ/2)`
 
@@ -57,7 +61,22 @@ def csknBracket (a : α) : α :=
     + XNum.log ((1.0 : α) + (2.0 : α) * a) / ((2.0 : α) * a)
     - ((1.0 : α) + (3.0 : α) * a) / (((1.0 : α) + (2.0 : α) * a) * ((1.0 : α) + (2.0 : α) * a))
 
-def csknV (E : α) : α := (2.0 : α) * PI_lit * Hdr.RE2 * csknBracket (E / Hdr.MEC2)
+/-- Taylor polynomial of degree 11 of `csknBracket` at `a = 0` (Horner form):
+`4/3 − 8a/3 + 104a²/15 − 266a³/15 + 4576a⁴/105 − 2176a⁵/21 + 15136a⁶/63 − 24592a⁷/45 + 606208a⁸/495
+ − 447488a⁹/165 + 2551808a¹⁰/429 − 3533312a¹¹/273` -/
+def csknSeries (a : α) : α :=
+  (4.0 : α) / (3.0 : α) + a * (-(8.0 : α) / (3.0 : α) + a * ((104.0 : α) / (15.0 : α)
+    + a * (-(266.0 : α) / (15.0 : α) + a * ((4576.0 : α) / (105.0 : α) + a * (-(2176.0 : α) / (21.0 : α)
+    + a * ((15136.0 : α) / (63.0 : α) + a * (-(24592.0 : α) / (45.0 : α) + a * ((606208.0 : α) / (495.0 : α)
+    + a * (-(447488.0 : α) / (165.0 : α) + a * ((2551808.0 : α) / (429.0 : α)
+    + a * (-(3533312.0 : α) / (273.0 : α))))))))))))
+
+/-- below this value of `a = E/mc²` (10.2 keV) the series is used -/
+def csknSwitch : α := (0.02 : α)
+
+def csknV (E : α) : α :=
+  (2.0 : α) * PI_lit * Hdr.RE2 *
+    (if E / Hdr.MEC2 < csknSwitch then csknSeries (E / Hdr.MEC2) else csknBracket (E / Hdr.MEC2))
 
 def comptonV (E θ : α) : α := E * ratioV E θ
 
